@@ -307,3 +307,18 @@ class SlotsSubSlots(SlotsBase):
 class SlotsUnset:
     """some slots are never assigned"""
     __slots__ = ('x', 'y', 'z')
+
+
+class Outer:
+    """a class, a plain function and a static method that live in a class body: reachable only by qualified name"""
+
+    class Inner:
+        def __init__(self, a=None):
+            self.a = a
+
+    def method(self):
+        return 1
+
+    @staticmethod
+    def smethod():
+        return 2
